@@ -14,6 +14,12 @@
                     executed too): which points have had the sign of the residual tested when the root finder is reached (if / conditional
                     expression / early return / while / while True + break / for-range + break / continue, values not names; pass counters are
                     recognised by value: `k += 1`, `k = 1 + k`, a component of a tuple assignment, limits that are literals, constants or parameters).
+                    A helper is summarised per call by the list of ways it returns - (sign facts and "is a number" facts about values, returned
+                    value) - and the caller goes on once per way (`Bracket.cases`), so `a, b = bracket(..)` / `if b is None: return a` keeps what
+                    was established about a and b; statements are first brought into a form in which every such call is the right-hand side of an
+                    assignment (`Bracket.normalised`: nested calls, starred results, comprehensions over the broadcast operands);
+ * `not_none`, `AfterLoop`, `World.numbers`   which values cannot be None (arithmetic, numbers, new arrays, operands of earlier arithmetic on the
+                    path, names whose every definition reaching the exit of a loop that is not executed is such a value).
 
 Nothing here looks at how a statement is spelled: names are resolved through the module's imports and the environment, temporaries are substituted.
 """
